@@ -124,6 +124,12 @@ func (fr *Frame) instr(ins ssa.Instruction) {
 		fr.store(fr.lval(x.Addr), fr.val(x.Val), st)
 	case *ssa.Range:
 		fr.vals[x] = enc.declare("range", "Int")
+		if mt, ok := x.X.Type().Underlying().(*types.Map); ok {
+			// ghost: the set of keys this range has yielded so far (empty before the first Next)
+			name, so := fr.visName(x), arraySort(enc.w.sortOf(mt.Key()), "Bool")
+			enc.w.heapSorts[name] = so
+			st.Set(name, A("(as const "+so+")", tFalse))
+		}
 	case *ssa.Next:
 		fr.next(x)
 	case *ssa.RunDefers:
@@ -482,8 +488,53 @@ func (fr *Frame) next(x *ssa.Next) {
 	val := fr.cur.Get("M."+ks+"."+vs+".val", arraySort("Int", arraySort(ks, vs)))
 	enc.assume(Implies(okc, And(Not(Eq(m, IntLit(0))), Select(Select(has, m), k))), "range over map yields present keys")
 	v := enc.define(fr.pfx+x.Name()+"_v", vs, Select(Select(val, m), k))
-	// ghost: when the iteration ends (ok false) every key has been visited; expressed through the
-	// uninterpreted predicate visited(range, key) which invariants may mention
 	fr.tuples[x] = []*Term{okc, k, v}
-	w.assumptions["range over a map visits an arbitrary sequence of present keys (any order)"] = true
+	// ghost visited set: a key is yielded at most once; when the iteration ends (ok false) every key of the
+	// map has been yielded - provided the loop itself does not write maps of this type (Go leaves the visit
+	// of entries added or removed during the iteration unspecified, nothing is assumed then)
+	name, so := fr.visName(rng), arraySort(ks, "Bool")
+	w.heapSorts[name] = so
+	vis := fr.cur.Get(name, so)
+	enc.assume(Implies(okc, Not(Select(vis, k))), "range over map yields each key at most once")
+	fr.cur.Set(name, enc.define(fr.pfx+x.Name()+"_vis", so, Ite(okc, Store(vis, k, tTrue), vis)))
+	if !fr.writesMapIn(x.Block(), "M."+ks+"."+vs+".has") {
+		q := Leaf(fmt.Sprintf("q_vis_%d", w.fresh()))
+		pres := Select(Select(has, m), q)
+		enc.assume(Implies(And(Not(okc), Not(Eq(m, IntLit(0)))), A("forall", A("(("+q.Op+" "+ks+"))"),
+			A("!", Implies(pres, Select(vis, q)), Leaf(":pattern"), A("", pres)))), "range over map ends only after every key was yielded")
+		w.assumptions["range over a map yields every key exactly once, in an arbitrary order (Go spec; the loop does not write the map)"] = true
+	} else {
+		w.assumptions["range over a map that the loop writes: an arbitrary sequence of distinct present keys (completeness not assumed)"] = true
+	}
+}
+
+// visName is the state variable holding the visited-key set of a range over a map.
+func (fr *Frame) visName(rng *ssa.Range) string {
+	ks := "x"
+	if mt, ok := rng.X.Type().Underlying().(*types.Map); ok {
+		ks = fr.enc.w.sortOf(mt.Key())
+	}
+	name := "$vis." + mangle(ks) + "." + mangle(fr.fn.String()) + "." + fr.pfx + rng.Name()
+	fr.enc.w.heapSorts[name] = arraySort(ks, "Bool")
+	return name
+}
+
+// writesMapIn reports whether the innermost loop containing block b may write the given map heap.
+func (fr *Frame) writesMapIn(b *ssa.BasicBlock, heapName string) bool {
+	var best *loopInfo
+	for _, li := range fr.loops {
+		if li.body[b.Index] && (best == nil || len(li.body) < len(best.body)) {
+			best = li
+		}
+	}
+	if best == nil {
+		return true
+	}
+	ms := newModSet()
+	fr.modifiedIn(fr.fn, best.body, ms, fr.ssaBindings(), 0)
+	if ms.all {
+		return true
+	}
+	_, w := ms.m[heapName]
+	return w
 }
